@@ -917,6 +917,11 @@ func (s *Server) handleBlockCmd(p Peer, block *block.Block) error {
 		return nil
 	}
 	if s.stateSync.IsActive() {
+		// The module's block height is not defined until MPT is in sync, the
+		// queue can't accept blocks before that.
+		if !s.stateSync.NeedBlocks() {
+			return nil
+		}
 		return s.bSyncQueue.Put(block)
 	}
 	return s.bQueue.Put(block)
